@@ -155,7 +155,47 @@ def fill(claim, na):
           'matrices and the documented operator tables are not decided.',
           'trusts python ast; several registry checks match normalised statements of add_op / '
           'remove_op / rename_op (listed in sa/rules/c12.py)', 'C12')
-    for pid in ['C01', 'C04', 'C07', 'C09', 'C11',
+    claim('C01', 'agreement of per-axis carriers (legs / labels / block-index columns / blocks) '
+          'by index-set extraction + documented label propagation + operand-side (family) '
+          'coherence in the blockwise merge',
+          PARTIAL + 'Only the bookkeeping clauses: in itranspose, take_slice, squeeze, trace the '
+          'legs, labels and block-index columns of the result are re-indexed with ONE index set; '
+          'tensordot/_tensordot_worker/outer cut legs, labels and block indices at the same '
+          'positions; duplicate labels dropped on both sides; conj maps every label; pipe labels '
+          'combine exactly the legs of that pipe and split labels replace them from the back; '
+          'add_leg/add_trivial_leg insert leg, label, column and block axis at one position; in '
+          'ibinary_blockwise the first argument of func always comes from self and the second '
+          'from other (zeros standing in for a missing block of that side), after sorting both '
+          'block lists and aligning labels. That dense values equal numpy results is arithmetic '
+          'over run-time data and is NOT decided.',
+          'several label rules match normalised statements of the current implementation (listed '
+          'in sa/rules/c01.py): a behaviour-preserving rewrite of those statements needs the rule '
+          'table updated', 'C01')
+    claim('C07', 'typestate of canonical forms on direct flows (producer of a stored tensor = '
+          'output k of a factorization, followed through relabel/split) + side pairing + table',
+          PARTIAL + 'Weak, bookkeeping only: every set_B(i, X, form=F) in mps.py and the '
+          'algorithms whose X is (a relabelled/split version of) the U/Q output of npc.svd / '
+          'svd_theta / npc.qr records form A, a VH output form B; get_B scales vL with the left '
+          'and vR with the right singular values by the change of the respective exponent; '
+          'tensors rebuilt through get_B(form=F) come with self.form = F or form=None; table of '
+          'forms (A,B,C,G,Th); structure of canonical_form_finite, convert_form, get_theta, '
+          'entanglement_entropy. Nothing about the represented vector, Schmidt values or '
+          'entropies is decided.', 'flows through containers, callbacks or arithmetic are not '
+          'tracked; several structure checks match normalised statements', 'C07')
+    claim('C09', 'coupled-update / read-after-replace ordering of the per-site lists + form-flow '
+          'typestate + bond-list re-indexing rule + sided-family coherence + result-flow of '
+          'truncation errors',
+          PARTIAL + 'Functions that replace sites/form/_B/_S replace all four and never evaluate '
+          'an accessor (get_B, get_SL, get_site, ...) that reads a list already replaced by its '
+          're-indexed version; tensors rebuilt with get_B(form=F) need self.form=F or form=None; '
+          'direct re-indexing of the bond list distinguishes finite (L+1 bonds) from infinite (L '
+          'bonds); swap_sites builds the fermionic sign with the left site as slow index and '
+          'exchanges the sites, spatial_inversion swaps all sided quantities; a per-element '
+          'decision is not taken inside `if flag is None` in a loop; truncation errors of '
+          'swap/permute/compress reach the returned value; norm tracking and JW string in '
+          'apply_local_op. That the transformed state equals the dense image is not decided.',
+          'accessor read-sets are a frozen table (ACCESSOR_READS in sa/rules/c09.py)', 'C09')
+    for pid in ['C04', 'C11',
                 'C13', 'C16', 'C19']:
         na(pid, 'static rule planned in DESIGN.md but not built yet (work in progress); not '
            'claimed until its check exists')
